@@ -56,6 +56,12 @@ func c17Closure(fd *ast.FuncDecl) *ast.FuncLit {
 }
 
 func c17PoolEvents(c *Ctx, n ast.Node, prefix string, skip ast.Node, out *[]string) {
+	c17PoolEventsEx(c, n, prefix, skip, out, false)
+}
+
+// steps = true: also `args[i](context)` (an argument stage evaluated against the ENCLOSING context) as
+// ("arg", i, ""), and the arguments of every Eval call as its detail
+func c17PoolEventsEx(c *Ctx, n ast.Node, prefix string, skip ast.Node, out *[]string, steps bool) {
 	ast.Inspect(n, func(m ast.Node) bool {
 		if m == nil {
 			return true
@@ -113,7 +119,18 @@ func c17PoolEvents(c *Ctx, n ast.Node, prefix string, skip ast.Node, out *[]stri
 				*out = append(*out, c17Ev(prefix+"get", "?", ""))
 			}
 			if strings.HasSuffix(name, ".Eval") {
-				*out = append(*out, c17Ev(prefix+"eval", strings.TrimSuffix(name, ".Eval"), ""))
+				detail := ""
+				if steps {
+					var as []string
+					for _, a := range v.Args {
+						as = append(as, exprStr(c, a))
+					}
+					detail = strings.Join(as, ", ")
+				}
+				*out = append(*out, c17Ev(prefix+"eval", strings.TrimSuffix(name, ".Eval"), detail))
+			}
+			if ix, ok := v.Fun.(*ast.IndexExpr); ok && steps && len(v.Args) == 1 && exprStr(c, v.Args[0]) == "context" && exprStr(c, ix.X) == "args" {
+				*out = append(*out, c17Ev(prefix+"arg", exprStr(c, ix.Index), ""))
 			}
 		}
 		return true
@@ -251,7 +268,7 @@ func init() {
 			{"@map", "kfArrayMap"}, {"@reduce", "kfArrayReduce"}, {"@slice", "kfArraySlice"}, {"@range", "kfArrayRange"},
 			{"@for", "kfArrayFor"}, {"@filter", "kfArrayFilter"}, {"@in", "kfArrayIn"},
 		}
-		var ar, pe []string
+		var ar, pe, hs []string
 		for _, h := range helpers {
 			fd := c.Func(rng, h.fn)
 			c.Fingerprint(rng, h.fn)
@@ -268,12 +285,19 @@ func init() {
 				} else {
 					c17PoolEvents(c, fd.Body, "build:", cl, &ev)
 					c17PoolEvents(c, cl.Body, "", nil, &ev)
+					if len(ev) > 0 { // a pool user: its closure step by step, argument evaluations included
+						var st []string
+						c17PoolEventsEx(c, cl.Body, "", nil, &st, true)
+						hs = append(hs, fmt.Sprintf("(%s, [%s])", leanStr(h.name), strings.Join(st, ", ")))
+					}
 				}
 			}
 			pe = append(pe, fmt.Sprintf("(%s, [%s])", leanStr(h.name), strings.Join(ev, ", ")))
 		}
 		fmt.Fprintf(&sb, "/-- accepted argument counts `lo-hi` per helper (stageErrArgCount / stageErrArgRange) -/\ndef arity : List (String × Nat × Nat) := [\n  %s]\n\n", strings.Join(ar, ",\n  "))
 		fmt.Fprintf(&sb, "/-- what each helper does with the pooled sub-context, in source order (`build:` = outside the returned closure) -/\ndef poolEvents : List (String × List (String × String × String)) := [\n  %s]\n\n", strings.Join(pe, ",\n  "))
+
+		fmt.Fprintf(&sb, "/-- the closure of every pool-using helper step by step: `arg i` = `args[i](context)` (evaluated against the ENCLOSING context), Eval calls with their arguments -/\ndef helperSteps : List (String × List (String × String × String)) := [\n  %s]\n\n", strings.Join(hs, ",\n  "))
 
 		// every other use of the pool in the package (must be none)
 		{
